@@ -336,6 +336,9 @@ func (s *Stage) Receive(file *sts.Partial, reader io.Reader) (err error) {
 	done := isCompanionComplete(cmp)
 	if done {
 		final := s.partialToFinal(file)
+		// An earlier delivery of this file may be known only from the log
+		// (aged out of the cache or received before a restart)
+		s.buildCache(s.cacheBuildTime(file.Time.Time))
 		existing := s.fromCache(final.path)
 		if existing != nil &&
 			existing.state != stateFailed &&
@@ -375,18 +378,7 @@ func (s *Stage) Received(parts []sts.Binned) (n int) {
 
 func (s *Stage) partReceived(part sts.Binned) bool {
 	s.logDebug("Checking for received part:", part.GetName())
-	when := part.GetFileTime()
-	now := time.Now()
-	if when.After(now) {
-		s.logInfo("Clamping future part time for cache build:", part.GetName(), when, now)
-		when = now
-	}
-	monthAgo := time.Now().Add(-1 * time.Hour * 24 * 30)
-	if when.Before(monthAgo) {
-		// Let's put a sensible cap in place
-		when = monthAgo
-	}
-	s.buildCache(when)
+	s.buildCache(s.cacheBuildTime(part.GetFileTime()))
 	beg, end := part.GetSlice()
 	path := filepath.Join(s.rootDir, part.GetName())
 	lock := s.getPathLock(path)
@@ -424,6 +416,22 @@ func (s *Stage) partReceived(part sts.Binned) bool {
 		return true
 	}
 	return false
+}
+
+// cacheBuildTime bounds the time from which the cache is (re)built from the
+// log for a file with the given time
+func (s *Stage) cacheBuildTime(when time.Time) time.Time {
+	now := time.Now()
+	if when.After(now) {
+		s.logInfo("Clamping future file time for cache build:", when, now)
+		when = now
+	}
+	monthAgo := now.Add(-1 * time.Hour * 24 * 30)
+	if when.Before(monthAgo) {
+		// Let's put a sensible cap in place
+		when = monthAgo
+	}
+	return when
 }
 
 // GetFileStatus returns the status of a file based on its source, name, and
